@@ -50,12 +50,11 @@ func TestVerif_C05(t *testing.T) {
 	defer run.Finish()
 	defer e1TuneRuntime(run)()
 	run.Rule("seeded dry-run lifecycle histories (same step alphabet as C01: spans of all kinds via both entry points, bursts, clock advances around SendDelay/TraceTimeout, span limit, MaxExpiredTraces backlog, ejections, sampler reloads; plus, in a third of the histories, spans handled by ProcessSpanImmediately under scripted stress); two thirds use only samplers whose decision the driver predicts; non-trivial = a would-be-dropped trace received a late span AND a would-be-kept trace exists; distinct = abstract history signature")
-	run.Assume("DryRun is on for the whole history; kept-decision capacity is far above the number of traces (no record ages out)")
+	run.Assume("list dry-run: DryRun on for the whole history; list dry-run-toggled: DryRun switched by MockConfig reloads at quiescent points, each clause applied per span with the value in force in the step the span was forwarded; kept-decision capacity is far above the number of traces (no record ages out)")
 	run.Assume("prediction of deterministic samplers comes from a private instance of the real DeterministicSampler; rules predictions from a field every span of the trace carries")
 
 	steps := run.N(60, 150)
-	run.Cases("dry-run", run.N(200, 2000), func(i int, rng *verifkit.Rand) {
-		p := E1Profile{DryRun: true, MaxSteps: steps, PredictableOnly: rng.Chance(0.67), StressSpans: rng.Chance(0.33)}
+	one := func(label string, i int, rng *verifkit.Rand, p E1Profile) {
 		h := e1GenHistory(rng, p)
 		planOf := map[string]*e1TracePlan{}
 		for _, pl := range h.Plans {
@@ -90,11 +89,13 @@ func TestVerif_C05(t *testing.T) {
 			}
 			return cur
 		}
-		if len(f.BufferLeft) > 0 {
+		lastStep := e.Step()
+		dryAt := e.DryRunAt
+		if len(f.BufferLeft) > 0 && dryAt(lastStep) {
 			run.Violation("C05/trace-still-buffered-after-bounded-progress", fmt.Sprintf("%d trace(s) still undecided after TraceTimeout+SendDelay+backlog ticks", len(f.BufferLeft)),
 				map[string]any{"config": h.Cfg.describe(), "buffered": f.BufferLeft[:min(5, len(f.BufferLeft))], "ops": e.Ops()})
 		}
-		lateOnDropped, wouldKeep, wouldDrop, predicted := 0, 0, 0, 0
+		lateOnDropped, wouldKeep, wouldDrop, predicted, afterSwitchOn, lateAcrossSwitch := 0, 0, 0, 0, 0, 0
 		for _, id := range f.Order {
 			tr := f.Traces[id]
 			if len(tr.Accepted) == 0 {
@@ -139,6 +140,14 @@ func TestVerif_C05(t *testing.T) {
 						run.Count("stress_dropped_spans", 1)
 						continue
 					}
+					// A span must have been forwarded if DryRun was on whenever it can have been handled: either on
+					// from its hand-over to the end of the history (it was decided, or arrived late, under dry run), or it
+					// is a late span (a sibling was already forwarded, so the trace was decided) arriving under dry run.
+					// A trace dropped while DryRun was off is not resurrected; that is left open.
+					if !(e.DryRunOnThroughout(a.Step, lastStep) || (late && dryAt(a.Step))) {
+						run.Count("spans_not_forwarded_permitted_dry_run_was_off", 1)
+						continue
+					}
 					run.Violation("C05/span-not-forwarded/"+cls, fmt.Sprintf("span %s was accepted with DryRun on and never reached the upstream transmission", a.Span.ID), wt("", nil))
 					continue
 				}
@@ -149,6 +158,14 @@ func TestVerif_C05(t *testing.T) {
 					continue
 				}
 				ev := evs[0]
+				if !dryAt(ev.Step) {
+					run.Count("spans_forwarded_while_dry_run_off", 1)
+					continue // forwarded as a normally kept span; nothing of C05 applies
+				}
+				afterSwitchOn++
+				if late && !dryAt(first) {
+					lateAcrossSwitch++ // trace decided while DryRun was off, this late span forwarded while it is on
+				}
 				if max(ev.SampleRate, 1) != max(a.Span.Rate, 1) {
 					run.Violation("C05/sample-rate-not-the-clients/"+cls, fmt.Sprintf("span %s: client sample rate %d, forwarded with %d in dry run", a.Span.ID, a.Span.Rate, ev.SampleRate), wt("", nil))
 				}
@@ -203,9 +220,22 @@ func TestVerif_C05(t *testing.T) {
 			run.Violation("C05/unknown-event-at-transmission", "an event without a handed-over verif.id reached the transmission", map[string]any{"events": f.Unknown[:min(3, len(f.Unknown))], "ops": e.Ops()})
 		}
 		sig, late, _, _ := h.Abstract(f)
-		if lateOnDropped > 0 && wouldKeep > 0 {
+		if p.ToggleDryRun {
+			toggles := 0
+			for _, st := range h.Steps {
+				if st.Op == "reload-dryrun" {
+					toggles++
+				}
+			}
+			if toggles > 0 && wouldDrop > 0 && wouldKeep > 0 {
+				run.Nontrivial(fmt.Sprintf("%s %s start%v t%d x%d", label, sig, h.Cfg.DryRun, min(toggles, 4), min(lateAcrossSwitch, 3)))
+			}
+			run.Count("dry_run_toggles", int64(toggles))
+			run.Count("late_spans_forwarded_dry_of_traces_decided_while_off", int64(lateAcrossSwitch))
+		} else if lateOnDropped > 0 && wouldKeep > 0 {
 			run.Nontrivial(fmt.Sprintf("%s p%v s%v", sig, p.PredictableOnly, p.StressSpans))
 		}
+		_ = afterSwitchOn
 		run.Count("traces_would_keep", int64(wouldKeep))
 		run.Count("traces_would_drop", int64(wouldDrop))
 		run.Count("traces_with_predicted_decision", int64(predicted))
@@ -214,7 +244,16 @@ func TestVerif_C05(t *testing.T) {
 		run.Count("events_forwarded", int64(e.EventCount()))
 		run.Count("steps", int64(e.Step()))
 		if i < 2 {
-			run.Sample(map[string]any{"config": h.Cfg.describe(), "ops": len(e.Ops()), "traces": len(f.Order), "would_keep": wouldKeep, "would_drop": wouldDrop, "late_on_dropped": lateOnDropped})
+			run.Sample(map[string]any{"label": label, "config": h.Cfg.describe(), "ops": len(e.Ops()), "traces": len(f.Order), "would_keep": wouldKeep, "would_drop": wouldDrop, "late_on_dropped": lateOnDropped})
 		}
+	}
+	run.Cases("dry-run", run.N(150, 1500), func(i int, rng *verifkit.Rand) {
+		one("dry-run", i, rng, E1Profile{DryRun: true, MaxSteps: steps, PredictableOnly: rng.Chance(0.67), StressSpans: rng.Chance(0.33)})
+	})
+	// DryRun switched by live reloads (Debugging.DryRun is reloadable): off→on and on→off at quiescent points,
+	// sampler definitions fixed. Every clause is applied per span with the DryRun value in force in the step in
+	// which the span was FORWARDED.
+	run.Cases("dry-run-toggled", run.N(80, 800), func(i int, rng *verifkit.Rand) {
+		one("toggled", i, rng, E1Profile{DryRun: rng.Chance(0.4), ToggleDryRun: true, MaxSteps: steps, PredictableOnly: rng.Chance(0.67)})
 	})
 }
